@@ -1,0 +1,24 @@
+//go:build verif
+
+package bip39
+
+import "io"
+
+// VerifSwapSource installs r as the randomness source consulted by
+// NewMnemonic and returns the previous source. Verification hook, compiled
+// only with the verif build tag.
+func VerifSwapSource(r io.Reader) io.Reader {
+	prev := cryptoRander
+	cryptoRander = r
+	return prev
+}
+
+// VerifMapLens reports the sizes of the ten lazily built word->index maps in
+// Language order. It must only be called while no library call is in flight.
+func VerifMapLens() [10]int {
+	return [10]int{
+		len(chineseSimplifiedMapping), len(chineseTraditionalMapping), len(englishMapping),
+		len(frenchMapping), len(italianMapping), len(japaneseMapping), len(koreanMapping),
+		len(spanishMapping), len(czechMapping), len(portugueseMapping),
+	}
+}
